@@ -555,6 +555,15 @@ func calculateHashes(numLeaves uint64, delHashes []Hash, proof Proof) (hashAndPo
 	toProve := toHashAndPos(proof.Targets, delHashes)
 	toProveIdx := 0
 
+	// The same position can't be proven twice. A duplicate of a right sibling
+	// would otherwise be taken as its own sibling.
+	for i := 1; i < toProve.Len(); i++ {
+		if toProve.positions[i] == toProve.positions[i-1] {
+			return hashAndPos{}, nil, fmt.Errorf("invalid proof. Position %d "+
+				"is given more than once", toProve.positions[i])
+		}
+	}
+
 	// Where all the root hashes that we've calculated will go to.
 	calculatedRootHashes := make([]Hash, 0, numRoots(numLeaves))
 
